@@ -225,7 +225,10 @@ func isPlusOne(v ssa.Value, of ssa.Value) bool {
 
 // wrapsAt: v is the next value of cur: cur+1, replaced by 0 exactly when cur+1 == bound
 // (if-form or modulo form).
-func wrapsAt(v ssa.Value, cur *ssa.Phi, bound ssa.Value) (string, bool) {
+func wrapsAt(v ssa.Value, cur ssa.Value, bound ssa.Value) (string, bool) {
+	if call, ok := v.(*ssa.Call); ok {
+		return wrapsAtCall(call, cur, bound)
+	}
 	if bo, ok := v.(*ssa.BinOp); ok && bo.Op == token.REM {
 		if !isPlusOne(bo.X, cur) {
 			return "", false
@@ -387,4 +390,77 @@ func sameRingVal(a, b ssa.Value) bool {
 		return true
 	}
 	return false
+}
+
+// wrapsAtCall: the next cursor comes from a straight-line helper f(cur, bound) whose result is
+// cur+1, replaced by 0 exactly when cur+1 reaches bound.
+func wrapsAtCall(call *ssa.Call, cur ssa.Value, bound ssa.Value) (string, bool) {
+	f := call.Call.StaticCallee()
+	if f == nil || len(f.Blocks) == 0 || len(call.Call.Args) != len(f.Params) {
+		return "", false
+	}
+	var pc, pb ssa.Value
+	for i, a := range call.Call.Args {
+		if a == cur {
+			pc = f.Params[i]
+		} else if sameRingVal(a, bound) {
+			pb = f.Params[i]
+		}
+	}
+	if pc == nil {
+		return "", false
+	}
+	if pb == nil {
+		// the helper may read the count itself
+		pb = bound
+	}
+	var rets []*ssa.Return
+	for _, b := range f.Blocks {
+		if r, ok := b.Instrs[len(b.Instrs)-1].(*ssa.Return); ok && len(r.Results) == 1 {
+			rets = append(rets, r)
+		}
+	}
+	switch len(rets) {
+	case 1:
+		if _, isCall := rets[0].Results[0].(*ssa.Call); isCall {
+			return "", false
+		}
+		return wrapsAt(rets[0].Results[0], pc, pb)
+	case 2:
+		var zero, other *ssa.Return
+		for _, r := range rets {
+			if k, ok := r.Results[0].(*ssa.Const); ok && k.Value != nil && k.Int64() == 0 {
+				zero = r
+			} else {
+				other = r
+			}
+		}
+		if zero == nil || other == nil || !isPlusOne(other.Results[0], pc) {
+			return "", false
+		}
+		next := other.Results[0]
+		zb := zero.Block()
+		if len(zb.Preds) != 1 {
+			return "", false
+		}
+		d := zb.Preds[0]
+		iff, ok := d.Instrs[len(d.Instrs)-1].(*ssa.If)
+		if !ok {
+			return "", false
+		}
+		bo, ok := iff.Cond.(*ssa.BinOp)
+		if !ok {
+			return "", false
+		}
+		onTrue := d.Succs[0] == zb
+		if bo.X == next && sameRingVal(bo.Y, pb) {
+			if (onTrue && (bo.Op == token.EQL || bo.Op == token.GEQ)) || (!onTrue && (bo.Op == token.NEQ || bo.Op == token.LSS)) {
+				return "", true
+			}
+		}
+		if bo.X == next || bo.Y == next {
+			return "the seat cursor wraps at a value other than the number of players", false
+		}
+	}
+	return "", false
 }
